@@ -162,3 +162,19 @@ pub fn write_findings(path: &str, prop: &str, tried: u64, fs: &[Finding]) {
         fs.iter().map(|f| format!("{{\"class\": {}, \"what\": {}, \"input\": {}}}", json_str(&f.class), json_str(&f.what), json_str(&f.input))).collect::<Vec<_>>().join(", "));
     std::fs::write(path, j).unwrap();
 }
+
+/// Crash breadcrumb: the oracle records the input it is about to evaluate in a small file (overwritten in place), so that
+/// when the implementation takes the whole process down (stack overflow from unbounded recursion, abort, a hang killed by
+/// the driver's timeout) the driver can still name the failing input.  Path from env HARNESS_CRUMB; no-op when unset.
+pub fn crumb(s: &str) {
+    use std::os::unix::fs::FileExt;
+    use std::sync::OnceLock;
+    static F: OnceLock<Option<std::fs::File>> = OnceLock::new();
+    let f = F.get_or_init(|| std::env::var("HARNESS_CRUMB").ok().and_then(|p| std::fs::OpenOptions::new().create(true).write(true).truncate(true).open(p).ok()));
+    if let Some(f) = f {
+        let mut buf = [b' '; 2048];
+        let b = s.as_bytes(); let n = b.len().min(2047);
+        buf[..n].copy_from_slice(&b[..n]); buf[2047] = b'\n';
+        let _ = f.write_at(&buf, 0);
+    }
+}
